@@ -178,6 +178,41 @@ theorem Covers.length_le {o i : List Elem} (h : Covers o i) : i.length ≤ o.len
       | cons _ _ => simp
     simp; omega
 
+/-- same provenance: bounding box (opaque id), page, parent heading, heading path -/
+def SameProv (x e : Elem) : Prop :=
+  x.md.id = e.md.id ∧ x.md.page = e.md.page ∧ x.md.parentHeading = e.md.parentHeading ∧
+    x.md.headingPath = e.md.headingPath
+
+theorem Covers.provenance {o i : List Elem} (h : Covers o i) :
+    (∀ x ∈ o, ∃ e ∈ i, SameProv x e) ∧ (∀ e ∈ i, ∃ x ∈ o, SameProv x e) := by
+  induction h with
+  | nil => simp
+  | whole e _ ih =>
+    refine ⟨fun x hx => ?_, fun e' he' => ?_⟩
+    · rcases List.mem_cons.1 hx with rfl | hx
+      · exact ⟨x, by simp, rfl, rfl, rfl, rfl⟩
+      · obtain ⟨e', he', hp⟩ := ih.1 x hx
+        exact ⟨e', by simp [he'], hp⟩
+    · rcases List.mem_cons.1 he' with rfl | he'
+      · exact ⟨e', by simp, rfl, rfl, rfl, rfl⟩
+      · obtain ⟨x, hx, hp⟩ := ih.2 e' he'
+        exact ⟨x, by simp [hx], hp⟩
+  | split e fs hs hne hc _ ih =>
+    refine ⟨fun x hx => ?_, fun e' he' => ?_⟩
+    · rcases List.mem_append.1 hx with hx | hx
+      · obtain ⟨f, _, rfl⟩ := List.mem_map.1 hx
+        exact ⟨e, by simp, rfl, rfl, rfl, rfl⟩
+      · obtain ⟨e', he', hp⟩ := ih.1 x hx
+        exact ⟨e', by simp [he'], hp⟩
+    · rcases List.mem_cons.1 he' with rfl | he'
+      · obtain ⟨f, r, rfl⟩ : ∃ f r, fs = f :: r := by
+          cases fs with
+          | nil => exact absurd rfl hne
+          | cons f r => exact ⟨f, r, rfl⟩
+        exact ⟨mkFragment e' f, by simp, rfl, rfl, rfl, rfl⟩
+      · obtain ⟨x, hx, hp⟩ := ih.2 e' he'
+        exact ⟨x, by simp [hx], hp⟩
+
 /-! ### the loop of `chunk`, by cases -/
 
 def joinedTokens (cnt : Counter) (st : St) (e : Elem) : Nat :=
